@@ -174,7 +174,8 @@ def capturing_class():
             return True
 
         def returncode(self):
-            return 0
+            # a command containing the word "false" exits 1
+            return 1 if self.started and "false" in self.started[0] else 0
 
         @property
         def timed_out(self):
@@ -232,6 +233,17 @@ def run_opts(case):
     return obs
 
 
+RAISE = {"boom": Boom, "kbd": KeyboardInterrupt, "sysexit": SystemExit, "genexit": GeneratorExit}
+XK = {"Boom": "XBoom", "TypeError": "XType", "ValueError": "XValue", "UnexpectedExit": "XUnexpected",
+      "KeyboardInterrupt": "XKbd", "SystemExit": "XSysExit", "GeneratorExit": "XGenExit"}
+SUDO_ONLY = ("user", "password")
+
+
+def stmt_kw(st):
+    """keyword arguments of a run / sudo statement (older cases: run has none)"""
+    return st[2] if len(st) > 2 else {}
+
+
 def run_ctx(case):
     from invoke import Context
     Cap = capturing_class()
@@ -245,11 +257,11 @@ def run_ctx(case):
     def go(prog):
         for st in prog:
             if st[0] == "run":
-                c.run(st[1])
+                c.run(st[1], **{k: to_py(v) for k, v in stmt_kw(st).items()})
             elif st[0] == "sudo":
-                c.sudo(st[1], **{k: to_py(v) for k, v in st[2].items()})
+                c.sudo(st[1], **{k: to_py(v) for k, v in stmt_kw(st).items()})
             elif st[0] == "raise":
-                raise Boom()
+                raise RAISE[st[1] if len(st) > 1 else "boom"]()
             elif st[0] == "cd":
                 with c.cd(st[1]):
                     go(st[2])
@@ -259,18 +271,17 @@ def run_ctx(case):
             elif st[0] == "try":
                 try:
                     go(st[1])
-                except Boom:
+                except BaseException:
                     pass
 
-    raised, other = False, None
-    with mock.patch.dict(os.environ, case["parent"], clear=True), contextlib.redirect_stdout(io.StringIO()):
+    raised = None
+    with mock.patch.dict(os.environ, case["parent"], clear=True), \
+            contextlib.redirect_stdout(io.StringIO()), contextlib.redirect_stderr(io.StringIO()):
         try:
             go(case["prog"])
-        except Boom:
-            raised = True
-        except Exception as e:
-            other = type(e).__name__
-    return {"calls": [r.started for r in Cap.instances], "raised": raised, "other": other,
+        except BaseException as e:
+            raised = type(e).__name__
+    return {"calls": [r.started for r in Cap.instances], "raised": raised,
             "final": [list(c.command_prefixes), list(c.command_cwds)]}
 
 
@@ -280,15 +291,22 @@ def started_term(st):
     return "(Some (%s, %s, %s))" % (ct.s(st[0]), oval(st[1]), envterm(st[2]))
 
 
+def kwterm(kw):
+    extra = [k for k in kw if k not in COQ_OPT and k != "timeout"]
+    return "(mkKw %s %s %s)" % (table(kw), ct.opt(oval(kw["timeout"]) if "timeout" in kw else None),
+                                ct.strs(extra))
+
+
 def stmt_term(st):
     if st[0] == "run":
-        return "(SRun %s)" % ct.s(st[1])
+        return "(SRun %s %s %s)" % (ct.s(st[1]), kwterm(stmt_kw(st)), ct.b("false" in st[1]))
     if st[0] == "sudo":
-        kw = st[2]
-        return "(SSudo %s %s %s)" % (ct.s(st[1]), ct.opt(oval(kw["user"]) if "user" in kw else None),
-                                     ct.opt(oval(kw["env"]) if "env" in kw else None))
+        kw = stmt_kw(st)
+        rest = {k: v for k, v in kw.items() if k not in SUDO_ONLY}
+        return "(SSudo %s %s %s %s)" % (ct.s(st[1]), ct.opt(oval(kw["user"]) if "user" in kw else None),
+                                        kwterm(rest), ct.b("false" in st[1]))
     if st[0] == "raise":
-        return "SRaise"
+        return "(SRaise %s)" % XK[RAISE[st[1] if len(st) > 1 else "boom"].__name__]
     if st[0] == "cd":
         return "(SBlock (BCd %s) %s)" % (ct.s(st[1]), ct.lst([stmt_term(x) for x in st[2]]))
     if st[0] == "prefix":
@@ -364,31 +382,52 @@ class C15(Prop):
         return {"kind": "opts", "config": cfg, "kwargs": kwargs,
                 "command": rng.choice(["ls", "echo {x}", "a && b", ""]), "parent": rng.choice(PARENTS)}
 
-    def gen_prog(self, rng, depth):
+    CDS = ["/a", "b", "~/x", "c d", "", "/", "e/", "/v w", "sub"]
+    PRES = ["p1", "source x", "workon e", ""]
+
+    def gen_call_kwargs(self, rng):
+        kw = {}
+        if rng.random() < 0.35:
+            for o in rng.sample(["echo", "hide", "shell", "warn", "env", "replace_env", "dry",
+                                 "asynchronous", "disown", "pty", "watchers"], rng.choice([1, 1, 2, 3])):
+                kw[o] = rng.choice(POOL[o] + [None])
+            if rng.random() < 0.1:
+                kw["bogus"] = 1
+            if rng.random() < 0.1:
+                kw["timeout"] = rng.choice([None, 3])
+        return kw
+
+    def gen_prog(self, rng, depth, open_blocks=()):
         out = []
-        for _ in range(rng.choice([1, 1, 2, 2, 3])):
+        for _ in range(rng.choice([1, 2, 2, 3, 3])):
             k = rng.random()
             if depth > 0 and k < 0.45:
-                body = self.gen_prog(rng, depth - 1)
-                if rng.random() < 0.55:
-                    out.append(["cd", rng.choice(["/a", "b", "~/x", "c d", "", "/", "e/", "/v w", "sub"]), body])
+                # now and then re-enter a block that is already open (same value)
+                again = [b for b in open_blocks] if rng.random() < 0.35 else []
+                if again:
+                    kind, val = rng.choice(again)
+                elif rng.random() < 0.55:
+                    kind, val = "cd", rng.choice(self.CDS)
                 else:
-                    out.append(["prefix", rng.choice(["p1", "source x", "workon e", ""]), body])
+                    kind, val = "prefix", rng.choice(self.PRES)
+                out.append([kind, val, self.gen_prog(rng, depth - 1, open_blocks + ((kind, val),))])
             elif depth > 0 and k < 0.55:
-                out.append(["try", self.gen_prog(rng, depth - 1)])
-            elif k < 0.61:
-                out.append(["raise"])
-            elif k < 0.85:
-                out.append(["run", rng.choice(["ls", "make x", "a b"])])
+                out.append(["try", self.gen_prog(rng, depth - 1, open_blocks)])
+            elif k < 0.62:
+                out.append(["raise", rng.choice(["boom", "boom", "kbd", "sysexit", "genexit"])])
+            elif k < 0.86:
+                out.append(["run", rng.choice(["ls", "make x", "a b", "false", "false y"]),
+                            self.gen_call_kwargs(rng)])
             else:
-                kw = {}
+                kw = self.gen_call_kwargs(rng)
                 u = rng.random()
                 if u < 0.3:
                     kw["user"] = rng.choice(["bob", None])
-                e = rng.random()
-                if e < 0.45:
+                if rng.random() < 0.3:
+                    kw["password"] = rng.choice(["secret", None])
+                if rng.random() < 0.45:
                     kw["env"] = rng.choice(ENVS + [None])
-                out.append(["sudo", rng.choice(["whoami", "apt x"]), kw])
+                out.append(["sudo", rng.choice(["whoami", "apt x", "false z"]), kw])
         return out
 
     def gen_ctx(self, rng):
@@ -401,6 +440,10 @@ class C15(Prop):
             run["shell"] = "/bin/sh"
         if rng.random() < 0.06:
             run["dry"] = True
+        if rng.random() < 0.08:
+            run["warn"] = True
+        if rng.random() < 0.03:
+            run["hide"] = "bogus"          # every call is refused
         sudo = {}
         if rng.random() < 0.3:
             sudo["user"] = "root2"
@@ -466,16 +509,19 @@ class C15(Prop):
                 if ctm != "absent":
                     cfg["timeout"] = ctm
                 yield {"kind": "opts", "config": cfg, "kwargs": kw, "command": "ls", "parent": {}}
-        # every nesting of <= 3 blocks around one run and one sudo
+        # every nesting of <= 3 blocks (values may repeat) around a call / a raise of each
+        # kind / a failing command, with a call after every block exit
         blocks = [("cd", "/a"), ("cd", "b"), ("cd", "c d"), ("prefix", "p1"), ("prefix", "q")]
+        tails = [["run", "ls", {}], ["sudo", "w", {}], ["run", "false", {}], ["raise", "boom"],
+                 ["raise", "kbd"], ["raise", "sysexit"], ["raise", "genexit"]]
         for n in range(0, 4):
             for combo in itertools.product(blocks, repeat=n):
-                for tail in (["run", "ls"], ["sudo", "w", {}], ["raise"]):
-                    prog = [tail, ["run", "after"]] if tail[0] != "raise" else [["run", "x"], tail]
-                    for b in reversed(combo):
-                        prog = [[b[0], b[1], prog]]
+                for tail in tails:
+                    prog = [["run", "x", {}], tail]
+                    for lvl, b in enumerate(reversed(combo)):
+                        prog = [["try", [[b[0], b[1], prog]]], ["run", "after%d" % lvl, {}]]
                     yield {"kind": "ctx", "config": {"run": {}, "sudo": {}}, "parent": {"A": "1"},
-                           "prog": [["try", prog], ["run", "end"]]}
+                           "prog": prog + [["run", "end", {}]]}
 
     # ---- implementation ----------------------------------------------------
     def run_impl(self, case):
@@ -483,10 +529,7 @@ class C15(Prop):
 
     def to_coq(self, case, obs):
         if case["kind"] == "opts":
-            kw = case["kwargs"]
-            extra = [k for k in kw if k not in COQ_OPT and k != "timeout"]
-            kwt = "(mkKw %s %s %s)" % (table(kw), ct.opt(oval(kw["timeout"]) if "timeout" in kw else None),
-                                       ct.strs(extra))
+            kwt = kwterm(case["kwargs"])
             exc = ct.opt(ct.err(obs["exc"]) if obs["exc"] else None)
             if obs.get("res"):
                 r = obs["res"]
@@ -506,7 +549,10 @@ class C15(Prop):
                                      oval(sudo.get("user")), envterm(case["parent"]))
         calls = ct.lst([started_term(x) for x in obs["calls"]])
         final = "(mkC %s %s)" % (ct.strs(obs["final"][0]), ct.strs(obs["final"][1]))
-        raised = ct.b(obs["raised"] or obs["other"] is not None)
+        r = obs["raised"]
+        if isinstance(r, bool):      # first-generation observations
+            r = "Boom" if r else None
+        raised = ct.opt(XK.get(r, "XOtherExc") if r else None)
         return "(CCtx %s %s %s %s %s)" % (cc, ct.lst([stmt_term(x) for x in case["prog"]]), calls, final, raised)
 
     def nontrivial(self, case, obs):
@@ -531,10 +577,23 @@ class C15(Prop):
     def classify(self, case, obs):
         if case["kind"] == "opts":
             return "opts/" + (obs["exc"] or obs["kind"]) + ("/echo" if obs["echo"] else "")
-        return "ctx/%dcalls%s" % (min(4, len(obs["calls"])), "/raised" if obs["raised"] else "")
+        kinds = sorted({(st[1] if len(st) > 1 else "boom") for st in walk(case["prog"]) if st[0] == "raise"})
+        tag = "ctx/%dcalls" % min(4, len(obs["calls"]))
+        if any(st[0] in ("run", "sudo") and stmt_kw(st) for st in walk(case["prog"])):
+            tag += "/kwargs"
+        if any(k != "boom" for k in kinds):
+            tag += "/baseexc"
+        if obs["raised"]:
+            tag += "/raised:" + str(obs["raised"])
+        return tag
 
     def finding_of(self, case, obs):
-        # F-C15 is fixed in /repo (c2a3b37): nothing is attributed any more
+        # F-C15b: a sudo call that passes watchers=None explicitly
+        if case["kind"] != "ctx":
+            return None
+        for st in walk(case["prog"]):
+            if st[0] == "sudo" and "watchers" in stmt_kw(st) and stmt_kw(st)["watchers"] is None:
+                return "F-C15b"
         return None
 
     def shrink_candidates(self, case):
@@ -565,11 +624,13 @@ class C15(Prop):
                     yield prog[:i] + st[1] + prog[i + 1:]
                     for b in variants(st[1]):
                         yield prog[:i] + [["try", b]] + prog[i + 1:]
-                elif st[0] == "sudo" and st[2]:
-                    for k in st[2]:
-                        kw = dict(st[2])
+                elif st[0] in ("run", "sudo") and stmt_kw(st):
+                    for k in stmt_kw(st):
+                        kw = dict(stmt_kw(st))
                         del kw[k]
-                        yield prog[:i] + [["sudo", st[1], kw]] + prog[i + 1:]
+                        yield prog[:i] + [[st[0], st[1], kw]] + prog[i + 1:]
+                elif st[0] == "raise" and len(st) > 1 and st[1] != "boom":
+                    yield prog[:i] + [["raise", "boom"]] + prog[i + 1:]
         for p in variants(case["prog"]):
             yield dict(case, prog=p)
         for sec in ("run", "sudo"):
@@ -579,9 +640,85 @@ class C15(Prop):
                 del d2[k]
                 yield dict(case, config=dict(case["config"], **{sec: d2}))
 
+    def extra_checks(self, tier, seed):
+        return [sudo_password_table(), real_env_checks()]
+
     def mutate(self, case, rng):
         for _ in range(40):
             yield self.gen_opts(rng) if case["kind"] == "opts" else self.gen_ctx(rng)
+
+
+def sudo_password_table():
+    """TEST: the response of sudo's own watcher is the per-call password when one is
+    passed (None included), else the configured one; the password never travels on
+    to the runner."""
+    from invoke import Config, Context
+    Cap = capturing_class()
+    failures, n = [], 0
+    for cfg_pw in (None, "cfg"):
+        for kw in ({}, {"password": "kw"}, {"password": None}):
+            n += 1
+            Cap.instances = []
+            c = Context(Config(overrides={"sudo": {"password": cfg_pw, "prompt": "P:"}, "runners": {"local": Cap}}))
+            want = "%s\n" % (kw["password"] if "password" in kw else cfg_pw,)
+            try:
+                with contextlib.redirect_stdout(io.StringIO()):
+                    c.sudo("x", hide=True, **kw)
+                w = Cap.instances[-1].watchers[-1]
+                got = {"response": w.response, "pattern": w.pattern, "sentinel": w.sentinel}
+                ok = w.response == want and w.pattern == "P:" and w.sentinel == "Sorry, try again.\n"
+            except Exception as e:
+                got, ok = {"exception": type(e).__name__}, False
+            if not ok:
+                failures.append({"case": {"configured": cfg_pw, "kwargs": kw}, "what": dict(got, wanted=want)})
+    return {"name": "sudo-password", "evaluations": n, "failures": failures,
+            "note": "TEST (finite table): sudo's responder answers with the per-call password if given, "
+                    "else the configured one"}
+
+
+def real_env_checks():
+    """TEST on real Local runs: the environment the child process really sees is the
+    parent's updated with the mapping, or -- replace_env -- the mapping alone (the shell
+    adds a few variables of its own, which are ignored)."""
+    from invoke import Config, Context
+    shell_own = {"PWD", "OLDPWD", "SHLVL", "_"}
+    failures, n = [], 0
+    marker = {"VERIF_A": "1", "VERIF B": "x y"}
+    for shell in ("/bin/bash", "/bin/sh"):
+        if not os.path.exists(shell):
+            continue
+        for pty in (False, True):
+            for replace in (False, True):
+                for via_config in (False, True):
+                    n += 1
+                    envmap = {"VERIF_A": "1", "VERIF_B": "x y"}
+                    over = {"run": {"env": envmap, "replace_env": replace}} if via_config else {}
+                    kw = {} if via_config else {"env": envmap, "replace_env": replace}
+                    c = Context(Config(overrides=over))
+                    with mock.patch.dict(os.environ, {"VERIF_PARENT": "p", "VERIF_A": "old"}):
+                        parent = dict(os.environ)
+                        try:
+                            r = c.run("/usr/bin/env", hide=True, in_stream=False, shell=shell, pty=pty,
+                                      timeout=20, **kw)
+                            got = {}
+                            for line in r.stdout.replace("\r\n", "\n").split("\n"):
+                                if "=" in line:
+                                    k, v = line.split("=", 1)
+                                    got[k] = v
+                            err = None
+                        except Exception as e:
+                            got, err = {}, type(e).__name__
+                    want = dict(envmap) if replace else dict(parent, **envmap)
+                    a = {k: v for k, v in got.items() if k not in shell_own}
+                    b = {k: v for k, v in want.items() if k not in shell_own}
+                    if err or a != b:
+                        diff = {k: (a.get(k), b.get(k)) for k in set(a) | set(b) if a.get(k) != b.get(k)}
+                        failures.append({"case": {"shell": shell, "pty": pty, "replace_env": replace,
+                                                  "via_config": via_config},
+                                         "what": {"exception": err, "differs(got,wanted)": diff}})
+    return {"name": "real-env", "evaluations": n, "failures": failures,
+            "note": "TEST on real Local children (/usr/bin/env; bash and sh; pipes and pty; env given per call "
+                    "and configured): child environment = parent updated with / replaced by the mapping"}
 
 
 PROP = C15()
